@@ -1,5 +1,6 @@
 """C02 Ledger consistency (structural clauses only)."""
 import json
+import re
 from engine import analysis as A
 from engine.model import op_place
 from .common import *
@@ -311,8 +312,19 @@ def _split_wiring(ctx):
             for who in ("bank", "balance"):
                 for side in ("asset", "liability"):
                     vals = got.get("%s/%s" % (who, side), [])
-                    if vals != [w[side]]:
-                        bad.append("%s %s-side update on a successful path is %s" % (who, side, vals or "missing"))
+                    if vals == [w[side]]:
+                        continue
+                    if not vals:
+                        # an update may be skipped only where its amount is exactly zero on that path
+                        amt = re.sub(r"^neg\(", "", w[side])
+                        m_ = re.fullmatch(r"get_(?:asset|liability)_shares\(p1\.bank,(.*)\)\)?", amt)
+                        amt = m_.group(1) if m_ else amt
+                        if amt.endswith(")") and amt.count("(") < amt.count(")"):
+                            amt = amt[:-1]
+                        zero = {"le(%s,0)" % amt, "eq(0,%s)" % amt, "is_zero(%s)" % amt}
+                        if zero & set(cs):
+                            continue
+                    bad.append("%s %s-side update on a successful path is %s" % (who, side, vals or "missing"))
         ctx.inst("C02.R2", "split-wiring/" + nm, nok > 0 and not bad,
                  "%s: on every successful path both the position and the bank get asset delta %s and liability delta %s" % (nm, w["asset"][:70], w["liability"][:70]),
                  sorted(set(bad))[:3] or "%d successful paths" % nok, f.loc(f.raw["span"]))
